@@ -108,6 +108,9 @@ func ruleTotalCmd(args []string) int {
 		"-w " + env.dir + " -p wa -k watchkey",
 		"-a never,user -F uid=1000 -F msgtype=1100",
 		"-a always,exit -S all -F exe=/usr/bin/true -F obj_type=etc_t -F a0&=0x80 -C auid!=obj_uid",
+		// fields whose values the decoder turns into names (file types, ids, errnos, permissions, record types)
+		"-a always,exit -F arch=b64 -S open -F filetype=file -F uid=0 -F gid=0 -F exit=-13 -F perm=rw -F auid>=1000 -F success=1 -F obj_uid=0 -F obj_gid=0",
+		"-a always,exclude -F msgtype=USER_LOGIN -F pid=1 -F uid=0 -F gid=0",
 	}
 	{ // 64 fields
 		parts := []string{"-a", "always,exit"}
@@ -247,7 +250,12 @@ func ruleTotalCmd(args []string) int {
 
 	// ---- Build on hostile Rule values -----------------------------------------------------------
 	trace := 1000000
+	buildHung := false
 	buildCase := func(cls string, r rule.Rule, descr string) {
+		if buildHung { // one call that never returned is the observation; what it left behind stalls the calls after it
+			stats["build_skipped_after_hang"]++
+			return
+		}
 		trace++
 		ret := "ok"
 		var kib int
@@ -269,6 +277,7 @@ func ruleTotalCmd(args []string) int {
 		case <-done:
 		case <-time.After(20 * time.Second):
 			ret = "hang"
+			buildHung = true
 		}
 		w.write(map[string]interface{}{"k": "total", "trace": trace, "cls": cls, "fn": "build", "ret": ret, "alloc_kib": kib,
 			"inlen": len(descr), "wire": []int{}, "descr": descr})
@@ -483,6 +492,9 @@ func flagValue(r *rand.Rand, letter string, env *ruleEnv) (string, string) {
 		}
 		if r.Intn(6) == 0 {
 			return "", "empty-value" // an empty argument is an argument: a second -w after it is a repeated -w
+		}
+		if r.Intn(5) == 0 { // a quoted path is the path, blanks at its edges included
+			return []string{"/mnt/backup ", " /tmp", "/tmp\t", " ", "\u00a0/x\u00a0", "/var/log/x\n", "  /a b  ", "\t/etc/passwd"}[r.Intn(8)], "value-with-space"
 		}
 		return []string{"/etc/passwd", "/tmp", "/var/log/x.log", "/srv/a\u00a0b", "/var/log/a\vb"}[r.Intn(5)], "plain"
 	case "p":
